@@ -36,32 +36,34 @@ type trFunc struct {
 	state     []string // "name:LeanType": package-level variables the function reads/writes (threaded as parameters and
 	// returned after the results), or "recv" for a receiver the method mutates (returned after the results)
 	maps []string // identifiers that are Go maps (indexing is a lookup with the zero value as default)
+	fuel string   // Lean term (over the parameters) bounding the iterations of the function's `for cond {}` loops
 }
 
 var trList = []trFunc{
-	{"CodeMatcher", "matcher", "Matcher.Match", "Matcher.Match", true, false, nil, nil},
-	{"CodeMatcher", "matcher", "Matcher.PreMatch", "Matcher.PreMatch", true, false, nil, nil},
-	{"CodeMatcher", "matcher", "Matcher.MatchRegexAndExpand", "Matcher.MatchRegexAndExpand", true, false, nil, nil},
-	{"CodeAgg", "aggregator", "Aggregator.AddMaybe", "Aggregator.AddMaybe", false, false, nil, nil},
-	{"CodeRoute", "route", "metricName", "metricName", true, false, nil, nil},
-	{"CodeRoute", "route", "SendAllMatch.Dispatch", "SendAllMatch.Dispatch", false, false, nil, nil},
-	{"CodeRoute", "route", "SendFirstMatch.Dispatch", "SendFirstMatch.Dispatch", false, false, nil, nil},
-	{"CodeHasher", "route", "ConsistentHasher.GetDestinationIndex", "ConsistentHasher.GetDestinationIndex", true, true, nil, nil},
-	{"CodeHasher", "route", "ConsistentHashing.Dispatch", "ConsistentHashing.Dispatch", false, true, nil, nil},
-	{"CodeTable", "table", "Table.Dispatch", "Table.Dispatch", false, true, nil, nil},
-	{"CodeTable", "table", "Table.DispatchAggregate", "Table.DispatchAggregate", false, false, nil, nil},
-	{"CodeOrdered", "validate", "Ordered", "validate_Ordered", true, false, []string{"m:MapII", "h:Hasher64"}, []string{"m"}},
-	{"CodeKeepSafe", "destination", "keepSafe.Add", "keepSafe.Add", true, false, []string{"recv"}, nil},
-	{"CodeKeepSafe", "destination", "keepSafe.GetAll", "keepSafe.GetAll", true, false, []string{"recv"}, nil},
-	{"CodeRewriter", "rewriter", "RW.Do", "RW.Do", true, false, nil, nil},
-	{"CodeTableOps", "table", "Table.AddRoute", "Table.AddRoute", true, false, []string{"recv"}, nil},
-	{"CodeTableOps", "table", "Table.AddBlacklist", "Table.AddBlacklist", true, false, []string{"recv"}, nil},
-	{"CodeTableOps", "table", "Table.AddAggregator", "Table.AddAggregator", true, false, []string{"recv"}, nil},
-	{"CodeTableOps", "table", "Table.AddRewriter", "Table.AddRewriter", true, false, []string{"recv"}, nil},
-	{"CodeTableOps", "table", "Table.DelBlacklist", "Table.DelBlacklist", true, false, []string{"recv"}, nil},
-	{"CodeTableOps", "table", "Table.DelRewriter", "Table.DelRewriter", true, false, []string{"recv"}, nil},
-	{"CodeTableOps", "table", "Table.DelAggregator", "Table.DelAggregator", false, false, []string{"recv"}, nil},
-	{"CodeTableOps", "table", "Table.DelRoute", "Table.DelRoute", false, false, []string{"recv"}, nil},
+	{"CodeMatcher", "matcher", "Matcher.Match", "Matcher.Match", true, false, nil, nil, ""},
+	{"CodeMatcher", "matcher", "Matcher.PreMatch", "Matcher.PreMatch", true, false, nil, nil, ""},
+	{"CodeMatcher", "matcher", "Matcher.MatchRegexAndExpand", "Matcher.MatchRegexAndExpand", true, false, nil, nil, ""},
+	{"CodeAgg", "aggregator", "Aggregator.AddMaybe", "Aggregator.AddMaybe", false, false, nil, nil, ""},
+	{"CodeRoute", "route", "metricName", "metricName", true, false, nil, nil, ""},
+	{"CodeRoute", "route", "SendAllMatch.Dispatch", "SendAllMatch.Dispatch", false, false, nil, nil, ""},
+	{"CodeRoute", "route", "SendFirstMatch.Dispatch", "SendFirstMatch.Dispatch", false, false, nil, nil, ""},
+	{"CodeHasher", "route", "ConsistentHasher.GetDestinationIndex", "ConsistentHasher.GetDestinationIndex", true, true, nil, nil, ""},
+	{"CodeHasher", "route", "ConsistentHashing.Dispatch", "ConsistentHashing.Dispatch", false, true, nil, nil, ""},
+	{"CodeTable", "table", "Table.Dispatch", "Table.Dispatch", false, true, nil, nil, ""},
+	{"CodeTable", "table", "Table.DispatchAggregate", "Table.DispatchAggregate", false, false, nil, nil, ""},
+	{"CodeOrdered", "validate", "Ordered", "validate_Ordered", true, false, []string{"m:MapII", "h:Hasher64"}, []string{"m"}, ""},
+	{"CodeKeepSafe", "destination", "keepSafe.Add", "keepSafe.Add", true, false, []string{"recv"}, nil, ""},
+	{"CodeKeepSafe", "destination", "keepSafe.GetAll", "keepSafe.GetAll", true, false, []string{"recv"}, nil, ""},
+	{"CodeRewriter", "rewriter", "RW.Do", "RW.Do", true, false, nil, nil, ""},
+	{"CodeTableOps", "table", "Table.AddRoute", "Table.AddRoute", true, false, []string{"recv"}, nil, ""},
+	{"CodeTableOps", "table", "Table.AddBlacklist", "Table.AddBlacklist", true, false, []string{"recv"}, nil, ""},
+	{"CodeTableOps", "table", "Table.AddAggregator", "Table.AddAggregator", true, false, []string{"recv"}, nil, ""},
+	{"CodeTableOps", "table", "Table.AddRewriter", "Table.AddRewriter", true, false, []string{"recv"}, nil, ""},
+	{"CodeTableOps", "table", "Table.DelBlacklist", "Table.DelBlacklist", true, false, []string{"recv"}, nil, ""},
+	{"CodeTableOps", "table", "Table.DelRewriter", "Table.DelRewriter", true, false, []string{"recv"}, nil, ""},
+	{"CodeTableOps", "table", "Table.DelAggregator", "Table.DelAggregator", false, false, []string{"recv"}, nil, ""},
+	{"CodeTableOps", "table", "Table.DelRoute", "Table.DelRoute", false, false, []string{"recv"}, nil, ""},
+	{"CodeReadDest", "imperatives", "readDestination", "readDestination", true, true, []string{"param:s"}, nil, "(s.toks.length + 2)"},
 }
 
 // generated modules that import another generated module (a translated function calling a translated method)
@@ -72,6 +74,7 @@ var leanTypes = map[string]string{
 	"uint16": "Int", "uint": "Int", "float64": "F64", "error": "Err",
 	"*Matcher": "Matcher", "Matcher": "Matcher", "*Table": "Table", "*SendAllMatch": "SendAllMatch", "*SendFirstMatch": "SendFirstMatch",
 	"*ConsistentHasher": "ConsistentHasher", "*ConsistentHashing": "ConsistentHashing", "*Aggregator": "Aggregator", "*keepSafe": "keepSafe", "RW": "RW",
+	"*toki.Scanner": "Scanner", "table.Interface": "TableI", "*destination.Destination": "DestP",
 	"route.Route": "RouteI", "*matcher.Matcher": "MatcherI", "*aggregator.Aggregator": "AggregatorI", "rewriter.RW": "RewriterI",
 }
 
@@ -105,7 +108,10 @@ var libFuncs = map[string]string{
 	"bytes.HasPrefix": "Lib.bytes_HasPrefix", "bytes.Contains": "Lib.bytes_Contains", "bytes.IndexByte": "Lib.bytes_IndexByte",
 	"bytes.Fields": "Lib.bytes_Fields", "bytes.Join": "Lib.bytes_Join", "sort.Search": "Lib.sort_Search", "len": "Lib.len", "bytes.Replace": "Lib.bytes_Replace",
 }
-var identityCalls = map[string]bool{"[]byte": true, "string": true, "int": true, "uint32": true, "int64": true, "uint16": true}
+var identityCalls = map[string]bool{"[]byte": true, "string": true, "int": true, "uint32": true, "int64": true, "uint16": true, "time.Duration": true}
+
+// methods of a threaded object that yield a value and advance the object: `x := s.Next()` is `(x, s) := s.Next`
+var popMethods = map[string]bool{"Next": true}
 var identityMethods = map[string]bool{"Load": true}
 var leanKeywords = map[string]bool{"prefix": true, "match": true, "end": true, "at": true, "from": true, "fun": true, "do": true, "then": true,
 	"in": true, "open": true, "meta": true, "matches": true, "instance": true, "structure": true, "where": true, "have": true, "show": true,
@@ -129,7 +135,9 @@ func fail(format string, a ...interface{}) { panic(trErr{fmt.Sprintf(format, a..
 type trCtx struct {
 	f        trFunc
 	pkgFns   map[string]string // Go function name of the same package -> lean name (translated)
-	ret      func(string) string
+	ret      func(string) string // return of a value tuple (the threaded state is appended by `full`)
+	retFull  func(string) string // return of an already complete tuple
+	full     func(string) string
 	brk      string // term for break ("" outside loops)
 	cont     string // term for continue / end of loop body
 	fall     string // term when the statement list ends
@@ -287,6 +295,10 @@ func (c *trCtx) expr(e ast.Expr) string {
 		}
 		fail("binary %s", x.Op)
 	case *ast.SelectorExpr:
+		if id, ok := x.X.(*ast.Ident); ok && isPkgName(id.Name) && !c.declared[id.Name] {
+			// a constant of another package (time.Second, toki.EOF): declared in the prelude
+			return id.Name + "_" + x.Sel.Name
+		}
 		return par(c.expr(x.X)) + "." + lid(x.Sel.Name)
 	case *ast.IndexExpr:
 		if id, ok := x.X.(*ast.Ident); ok && c.isMap(id.Name) {
@@ -394,7 +406,7 @@ func (c *trCtx) call(x *ast.CallExpr) string {
 		}
 		return "E." + lid(f.Name) + " " + c.args(x.Args)
 	case *ast.SelectorExpr:
-		if id, ok := f.X.(*ast.Ident); ok && isPkgName(id.Name) {
+		if id, ok := f.X.(*ast.Ident); ok && isPkgName(id.Name) && !c.declared[id.Name] {
 			if !c.f.env {
 				fail("call of %s needs the Env parameter", fn)
 			}
@@ -419,7 +431,7 @@ func (c *trCtx) call(x *ast.CallExpr) string {
 	return ""
 }
 
-var pkgNames = map[string]bool{"m20": true, "validate": true, "bytes": true, "sort": true, "strings": true, "fmt": true, "time": true,
+var pkgNames = map[string]bool{"toki": true, "matcher": true, "destination": true, "errors": true, "m20": true, "validate": true, "bytes": true, "sort": true, "strings": true, "fmt": true, "time": true,
 	"atomic": true, "regexp": true, "strconv": true, "math": true, "os": true, "sync": true}
 
 func isPkgName(s string) bool { return pkgNames[s] }
@@ -564,6 +576,17 @@ func (c *trCtx) stmts(list []ast.Stmt, ind string) string {
 	case *ast.BlockStmt:
 		return c.stmts(append(append([]ast.Stmt{}, x.List...), rest...), ind)
 	case *ast.ReturnStmt:
+		if len(x.Results) == 0 && c.nres > 0 {
+			fail("bare return in a function with results")
+		}
+		if len(x.Results) == 1 && c.nres > 1 {
+			// `return f(...)` where f yields all the results
+			var ns []string
+			for i := 0; i < c.nres; i++ {
+				ns = append(ns, fmt.Sprintf("r%d_", i))
+			}
+			return "let " + tuple(ns) + " := " + c.expr(x.Results[0]) + nl + c.ret(tuple(ns))
+		}
 		var rs []string
 		for _, r := range x.Results {
 			rs = append(rs, c.expr(r))
@@ -654,6 +677,19 @@ func (c *trCtx) stmts(list []ast.Stmt, ind string) string {
 		}
 		return out + c.stmts(rest, ind)
 	case *ast.AssignStmt:
+		// `t := s.Next()` / `t = s.Next()` on a threaded object
+		if len(x.Rhs) == 1 && len(x.Lhs) == 1 {
+			if call, ok := x.Rhs[0].(*ast.CallExpr); ok {
+				if se, ok := call.Fun.(*ast.SelectorExpr); ok && popMethods[se.Sel.Name] && len(call.Args) == 0 {
+					if obj, ok := se.X.(*ast.Ident); ok && c.declared[obj.Name] {
+						if id, ok := x.Lhs[0].(*ast.Ident); ok {
+							c.declared[id.Name] = true
+							return "let (" + lid(id.Name) + ", " + lid(obj.Name) + ") := " + lid(obj.Name) + "." + lid(se.Sel.Name) + nl + c.stmts(rest, ind)
+						}
+					}
+				}
+			}
+		}
 		pre := ""
 		// a call with effects of its own on the right-hand side: bind its value
 		if len(x.Rhs) == 1 {
@@ -688,7 +724,8 @@ func (c *trCtx) stmts(list []ast.Stmt, ind string) string {
 		}
 		if len(x.Lhs) == len(x.Rhs) {
 			if len(x.Lhs) == 1 {
-				return pre + c.assignTo(x.Lhs[0], c.expr(x.Rhs[0]), x.Tok) + nl + c.stmts(rest, ind)
+				rhs := c.expr(x.Rhs[0])
+				return pre + c.assignTo(x.Lhs[0], rhs, x.Tok) + nl + c.stmts(rest, ind)
 			}
 			// parallel assignment: evaluate all right-hand sides first
 			out := ""
@@ -704,6 +741,7 @@ func (c *trCtx) stmts(list []ast.Stmt, ind string) string {
 			return out + c.stmts(rest, ind)
 		}
 		if len(x.Rhs) == 1 {
+			rhs := c.expr(x.Rhs[0]) // before the left-hand names come into scope (`matcher, err := matcher.New(...)`)
 			var names []string
 			for _, l := range x.Lhs {
 				id, ok := l.(*ast.Ident)
@@ -717,7 +755,7 @@ func (c *trCtx) stmts(list []ast.Stmt, ind string) string {
 					names = append(names, lid(id.Name))
 				}
 			}
-			return pre + "let " + tuple(names) + " := " + c.expr(x.Rhs[0]) + nl + c.stmts(rest, ind)
+			return pre + "let " + tuple(names) + " := " + rhs + nl + c.stmts(rest, ind)
 		}
 		fail("assignment %s", src(x))
 	case *ast.IfStmt:
@@ -794,6 +832,10 @@ func (c *trCtx) stmts(list []ast.Stmt, ind string) string {
 		return pre + "if " + cond + " then" + nl + "  " + t1 + nl + "else" + nl + "  " + t2
 	case *ast.RangeStmt:
 		return c.rangeStmt(x, rest, ind)
+	case *ast.ForStmt:
+		return c.forStmt(x, rest, ind)
+	case *ast.SwitchStmt:
+		return c.stmts(append([]ast.Stmt{switchToIf(x)}, rest...), ind)
 	}
 	fail("statement %T (%s)", s, firstLine(src(s)))
 	return ""
@@ -830,6 +872,157 @@ func checkNoShadow(c *trCtx, block, rest []ast.Stmt) {
 			}
 		}
 	}
+}
+
+// switchToIf rewrites `switch tag { case a, b: S; default: D }` (no fallthrough) into an if / else-if chain. A `break` that
+// ends a case body leaves the switch, i.e. does nothing more; a `break` anywhere else inside a case is refused (it would
+// be read as leaving the enclosing loop).
+func switchToIf(x *ast.SwitchStmt) ast.Stmt {
+	if x.Init != nil {
+		fail("switch with an init statement")
+	}
+	var def []ast.Stmt
+	hasDef := false
+	type arm struct {
+		cond ast.Expr
+		body []ast.Stmt
+	}
+	var arms []arm
+	for _, cc := range x.Body.List {
+		cl := cc.(*ast.CaseClause)
+		body := cl.Body
+		if n := len(body); n > 0 {
+			if br, ok := body[n-1].(*ast.BranchStmt); ok && br.Tok == token.BREAK && br.Label == nil {
+				body = body[:n-1]
+			}
+		}
+		for _, b := range body {
+			ast.Inspect(b, func(n ast.Node) bool {
+				switch y := n.(type) {
+				case *ast.ForStmt, *ast.RangeStmt, *ast.SwitchStmt, *ast.SelectStmt, *ast.FuncLit:
+					return false
+				case *ast.BranchStmt:
+					if y.Tok == token.BREAK || y.Tok == token.FALLTHROUGH {
+						fail("break/fallthrough inside a switch case")
+					}
+				}
+				return true
+			})
+		}
+		if cl.List == nil {
+			def, hasDef = body, true
+			continue
+		}
+		var cond ast.Expr
+		for _, e := range cl.List {
+			var one ast.Expr = e
+			if x.Tag != nil {
+				one = &ast.BinaryExpr{X: x.Tag, Op: token.EQL, Y: e}
+			}
+			if cond == nil {
+				cond = one
+			} else {
+				cond = &ast.BinaryExpr{X: cond, Op: token.LOR, Y: one}
+			}
+		}
+		arms = append(arms, arm{cond, body})
+	}
+	var cur ast.Stmt
+	if hasDef {
+		cur = &ast.BlockStmt{List: def}
+	}
+	for i := len(arms) - 1; i >= 0; i-- {
+		cur = &ast.IfStmt{Cond: arms[i].cond, Body: &ast.BlockStmt{List: arms[i].body}, Else: cur}
+	}
+	if cur == nil {
+		return &ast.EmptyStmt{}
+	}
+	return cur
+}
+
+// forStmt translates `for init; cond; post { body }` into a fuel-bounded loop (`whileP` / `whileR` of the prelude): the
+// state is the tuple of outer variables the body or the post statement assigns; `continue` and the end of the body run the
+// post statement; the fuel is the function's declared bound (the tie theorems show the loop ends before it runs out).
+func (c *trCtx) forStmt(x *ast.ForStmt, rest []ast.Stmt, ind string) string {
+	nl := "\n" + ind
+	if c.f.fuel == "" {
+		fail("for loop in a function without a declared iteration bound")
+	}
+	if x.Init != nil {
+		y := *x
+		y.Init = nil
+		return c.stmts(append([]ast.Stmt{x.Init, &y}, rest...), ind)
+	}
+	bodyList := x.Body.List
+	as := map[string]bool{}
+	assignedIn(bodyList, as)
+	if x.Post != nil {
+		assignedIn([]ast.Stmt{x.Post}, as)
+	}
+	// objects advanced by pop methods are assigned too
+	for _, st := range append(append([]ast.Stmt{}, bodyList...), x.Post) {
+		if st == nil {
+			continue
+		}
+		ast.Inspect(st, func(n ast.Node) bool {
+			if call, ok := n.(*ast.CallExpr); ok {
+				if se, ok := call.Fun.(*ast.SelectorExpr); ok && (popMethods[se.Sel.Name] || mutatorMethods[se.Sel.Name]) {
+					if id, ok := se.X.(*ast.Ident); ok {
+						as[id.Name] = true
+					}
+				}
+			}
+			return true
+		})
+	}
+	var mv []string
+	for n := range as {
+		if c.declared[n] {
+			mv = append(mv, n)
+		}
+	}
+	sort.Strings(mv)
+	var mvl []string
+	for _, n := range mv {
+		mvl = append(mvl, lid(n))
+	}
+	state := tuple(mvl)
+	cond := "true"
+	if x.Cond != nil {
+		cond = c.expr(x.Cond)
+	}
+	b := c.clone()
+	outerRet := c.retFull
+	// the post statement runs at `continue` and at the end of the body
+	post := ""
+	if x.Post != nil {
+		pc := c.clone()
+		pc.fall = "POST_END"
+		post = pc.stmts([]ast.Stmt{x.Post}, ind+"    ")
+		post = strings.Replace(post, "POST_END", "", 1)
+	}
+	if c.f.pure {
+		b.retFull = func(s string) string { return "Step.ret " + par(s) }
+		b.brk = "Step.brk " + state
+		b.cont = post + "Step.next " + state
+	} else {
+		b.retFull = func(s string) string { return "Res.pure (Step.ret " + par(s) + ")" }
+		b.brk = "Res.pure (Step.brk " + state + ")"
+		b.cont = post + "Res.pure (Step.next " + state + ")"
+	}
+	b.ret = func(s string) string { return b.retFull(b.full(s)) }
+	b.fall = b.cont
+	body := b.stmts(bodyList, ind+"    ")
+	after := c.stmts(rest, ind+"    ")
+	loop := "whileP"
+	if !c.f.pure {
+		loop = "whileR"
+	}
+	head := loop + " " + c.f.fuel + " (fun " + state + " => " + cond + ") (fun " + state + " =>" + nl + "    " + body + ") " + state
+	if c.f.pure {
+		return "match " + head + " with" + nl + "  | Out.ret r_ => " + outerRet("r_") + nl + "  | Out.done " + state + " =>" + nl + "    " + after
+	}
+	return "Res.bind (" + head + ") fun" + nl + "  | Out.ret r_ => " + outerRet("r_") + nl + "  | Out.done " + state + " =>" + nl + "    " + after
 }
 
 func (c *trCtx) rangeStmt(x *ast.RangeStmt, rest []ast.Stmt, ind string) string {
@@ -898,16 +1091,17 @@ func (c *trCtx) rangeStmt(x *ast.RangeStmt, rest []ast.Stmt, ind string) string 
 	if x.Value != nil {
 		b.declared[src(x.Value)] = true
 	}
-	outerRet := c.ret
+	outerRet := c.retFull
 	if c.f.pure {
-		b.ret = func(s string) string { return "Step.ret " + par(s) }
+		b.retFull = func(s string) string { return "Step.ret " + par(s) }
 		b.brk = "Step.brk " + state
 		b.cont = "Step.next " + state
 	} else {
-		b.ret = func(s string) string { return "Res.pure (Step.ret " + par(s) + ")" }
+		b.retFull = func(s string) string { return "Res.pure (Step.ret " + par(s) + ")" }
 		b.brk = "Res.pure (Step.brk " + state + ")"
 		b.cont = "Res.pure (Step.next " + state + ")"
 	}
+	b.ret = func(s string) string { return b.retFull(b.full(s)) }
 	b.fall = b.cont
 	body := rebind + b.stmts(x.Body.List, ind+"    ")
 	after := c.stmts(rest, ind+"    ")
@@ -996,7 +1190,7 @@ func translateFunc(f trFunc, fd *ast.FuncDecl, pkgFns map[string]string) string 
 	}
 	var stateNames, stateTypes []string
 	for _, st := range f.state {
-		if st == "recv" {
+		if st == "recv" || strings.HasPrefix(st, "param:") {
 			continue
 		}
 		kv := strings.SplitN(st, ":", 2)
@@ -1016,6 +1210,15 @@ func translateFunc(f trFunc, fd *ast.FuncDecl, pkgFns map[string]string) string 
 	}
 	for _, p := range fd.Type.Params.List {
 		addParam(p.Names, p.Type)
+		for _, st := range f.state {
+			for _, n := range p.Names {
+				if st == "param:"+n.Name {
+					// a parameter that the function advances (a scanner): its final value is returned after the results
+					stateNames = append(stateNames, lid(n.Name))
+					stateTypes = append(stateTypes, leanTypes[src(p.Type)])
+				}
+			}
+		}
 	}
 	var rts []string
 	if fd.Type.Results != nil {
@@ -1034,6 +1237,7 @@ func translateFunc(f trFunc, fd *ast.FuncDecl, pkgFns map[string]string) string 
 		}
 	}
 	rt := "Unit"
+	c.nres = len(rts)
 	if len(rts) > 0 {
 		rt = strings.Join(rts, " × ")
 	}
@@ -1049,27 +1253,33 @@ func translateFunc(f trFunc, fd *ast.FuncDecl, pkgFns map[string]string) string 
 			wrap = func(s string) string { return "Res.pure " + par(s) }
 			rt = "Res (" + rt + ")"
 		}
-		// every return (and the end of the body) yields the results followed by the current state
-		c.ret = func(s string) string {
+		// every return (and the end of the body) yields the results followed by the state at that point
+		c.full = func(s string) string {
 			if noRes || s == "()" {
-				return wrap(tuple(stateNames))
+				return tuple(stateNames)
 			}
 			if strings.HasPrefix(s, "(") && balancedOuter(s) && strings.Contains(s, ",") {
-				return wrap("(" + s[1:len(s)-1] + ", " + strings.Join(stateNames, ", ") + ")")
+				return "(" + s[1:len(s)-1] + ", " + strings.Join(stateNames, ", ") + ")"
 			}
-			return wrap("(" + s + ", " + strings.Join(stateNames, ", ") + ")")
+			return "(" + s + ", " + strings.Join(stateNames, ", ") + ")"
 		}
+		c.retFull = wrap
+		c.ret = func(s string) string { return c.retFull(c.full(s)) }
 		c.fall = wrap(tuple(stateNames))
 		if !noRes {
 			c.fall = wrap("(default, " + strings.Join(stateNames, ", ") + ")")
 		}
 	} else if f.pure {
+		c.full = func(s string) string { return s }
+		c.retFull = func(s string) string { return s }
 		c.ret = func(s string) string { return s }
 		c.fall = "default"
 		if rt == "Unit" {
 			c.fall = "()"
 		}
 	} else {
+		c.full = func(s string) string { return s }
+		c.retFull = func(s string) string { return "Res.pure " + par(s) }
 		c.ret = func(s string) string { return "Res.pure " + par(s) }
 		c.fall = "Res.pure default"
 		if rt == "Unit" {
